@@ -166,7 +166,7 @@ Proof.
   unfold sigma, sigma_mid, found_env, found_tail, gen_foundToken.
   xstep1. rewrite (slice_from src off Hoff). xstep1. xstep1. rewrite Hr. cbn [negb app]. xstep1.
   cbn [Z.eqb Pos.eqb]. xstep1. xstep1. rewrite Hlen. xstep1. reflexivity.
-Time Qed.
+Qed.
 
 Lemma ttype_eqb_space ty : ttype_eqb ty TSpace = match ty with TSpace => true | _ => false end.
 Proof. destruct ty; reflexivity. Qed.
@@ -211,7 +211,7 @@ Proof.
       rewrite M. cbn [x_oc x_out x_st set_field s_next s_first s_line s_pos s_other]. xstep1. xstep1.
       cbn [out_with app x_st x_env x_out x_oc]. eexists. f_equal; f_equal. apply Hst; lia.
     + xstep1. xstep1. xstep1. cbn [out_with app x_st x_env x_out x_oc]. eexists. f_equal; f_equal. apply Hst; lia.
-Time Qed.
+Qed.
 
 (* ================= (c) scanTokens: the order of the cases ================= *)
 Definition gen_label : option string := match gen_scanTokens with SFor lb _ _ _ _ :: _ => lb | _ => None end.
@@ -373,7 +373,7 @@ Proof.
         rewrite (eof_exec src _ _ [c]).
         2:{ cbn [s_first s_next]. pose proof (slice_mid src off 1 ltac:(lia)) as H. fold l in H. rewrite Hsk in H. exact H. }
         cbn [out_with x_st x_env x_out x_oc s_line s_pos app]. do 2 eexists. reflexivity.
-Time Qed.
+Qed.
 
 Theorem gen_scan_is_lex src : gen_scan src = Some (lex src).
 Proof.
